@@ -484,3 +484,53 @@ func TestVerifReplayOfferedKeyType(t *testing.T) {
 		t.Logf("REPLAY-NOT-REPRODUCED")
 	}
 }
+
+// C01: a certificate is issued exactly when the session proves one of the operator-listed methods (a
+// hardware-token session always qualifies). Replay of a failing level obligation: the real certGenHandler
+// is driven with a server-signed session cookie for every (single listed method, level) pair of the space the
+// model lives in - 7 method names x (11 single factor bits and their combination with the password bit).
+func TestVerifReplayCertLevel(t *testing.T) {
+	state, passwdFile, err := setupValidRuntimeStateSigner(t)
+	if err != nil {
+		t.Fatal(err)
+	}
+	defer os.Remove(passwdFile.Name())
+	methods := map[string]int{"password": -1, "U2F": AuthTypeU2F, "TOTP": AuthTypeTOTP, "SymantecVIP": AuthTypeSymantecVIP,
+		"IPCertificate": AuthTypeIPCertificate, "Okta2FA": AuthTypeOkta2FA, "WebauthForCLI": AuthTypeWebauthForCLI}
+	bits := []int{AuthTypePassword, AuthTypeFederated, AuthTypeU2F, AuthTypeSymantecVIP, AuthTypeIPCertificate, AuthTypeTOTP,
+		AuthTypeOkta2FA, AuthTypeBootstrapOTP, AuthTypeKeymasterX509, AuthTypeWebauthForCLI, AuthTypeFIDO2}
+	var levels []int
+	for _, b := range bits {
+		levels = append(levels, b, b|AuthTypePassword)
+	}
+	confirmed := 0
+	for name, bit := range methods {
+		state.Config.Base.AllowedAuthBackendsForCerts = []string{name}
+		for _, level := range levels {
+			want := bit == -1 || level&bit == bit || level&AuthTypeU2F == AuthTypeU2F
+			req, err := createKeyBodyRequest("POST", "/certgen/username", testUserSSHPublicKey, "")
+			if err != nil {
+				t.Fatal(err)
+			}
+			cookieVal, err := state.genNewSerializedAuthJWT("username", level, 600)
+			if err != nil {
+				t.Fatal(err)
+			}
+			req.AddCookie(&http.Cookie{Name: authCookieName, Value: cookieVal})
+			rr := httptest.NewRecorder()
+			state.certGenHandler(&instrumentedwriter.LoggingWriter{ResponseWriter: rr}, req)
+			got := rr.Code == 200
+			if got != want {
+				confirmed++
+				if confirmed <= 4 {
+					t.Logf("listed=[%s] session level=%#x -> status %d, the property says issued=%v", name, level, rr.Code, want)
+				}
+			}
+		}
+	}
+	if confirmed > 0 {
+		t.Logf("REPLAY-CONFIRMED: %d (method, level) pairs are served against the operator's list", confirmed)
+	} else {
+		t.Logf("REPLAY-NOT-REPRODUCED")
+	}
+}
